@@ -271,20 +271,52 @@ func ruleSetOnAppend(c *Ctx) {
 		info := fn.Info()
 		fg := (*FlowGraph)(nil)
 		var grows []*ast.AssignStmt
+		// locals that hold a grown view of the buffer: buf := f(s.aofbuf, …); buf = f(buf, …)
+		grown := map[types.Object]bool{}
+		takesBuf := func(e ast.Expr) bool {
+			call, ok := ast.Unparen(e).(*ast.CallExpr)
+			if !ok {
+				return false
+			}
+			for _, a := range call.Args {
+				if selField(info, a) == aofbuf {
+					return true
+				}
+				if id, ok := ast.Unparen(a).(*ast.Ident); ok && grown[info.ObjectOf(id)] {
+					return true
+				}
+			}
+			return false
+		}
+		for changed := true; changed; {
+			changed = false
+			inspectNoLit(fn.Decl.Body, func(x ast.Node) bool {
+				as, ok := x.(*ast.AssignStmt)
+				if !ok || len(as.Lhs) != len(as.Rhs) {
+					return true
+				}
+				for i, l := range as.Lhs {
+					if id, ok := ast.Unparen(l).(*ast.Ident); ok && takesBuf(as.Rhs[i]) {
+						if o := info.ObjectOf(id); o != nil && !grown[o] {
+							grown[o] = true
+							changed = true
+						}
+					}
+				}
+				return true
+			})
+		}
 		inspectNoLit(fn.Decl.Body, func(x ast.Node) bool {
 			as, ok := x.(*ast.AssignStmt)
 			if !ok || len(as.Lhs) != 1 || len(as.Rhs) != 1 || selField(info, as.Lhs[0]) != aofbuf {
 				return true
 			}
-			// growth: rhs is a call that takes aofbuf as an argument (append, redcon.AppendX)
-			call, ok := ast.Unparen(as.Rhs[0]).(*ast.CallExpr)
-			if !ok {
-				return true
-			}
-			for _, a := range call.Args {
-				if selField(info, a) == aofbuf {
-					grows = append(grows, as)
-				}
+			// growth: rhs is a call that takes aofbuf (or a grown view of it) as an argument (append, redcon.AppendX),
+			// or a local that holds such a view
+			if takesBuf(as.Rhs[0]) {
+				grows = append(grows, as)
+			} else if id, ok := ast.Unparen(as.Rhs[0]).(*ast.Ident); ok && grown[info.ObjectOf(id)] {
+				grows = append(grows, as)
 			}
 			return true
 		})
